@@ -82,4 +82,121 @@ theorem urlEncode_cons (c : UInt8) (t : List UInt8) (comp : Bool) :
     urlEncode (c :: t) comp = urlEncode [c] comp ++ urlEncode t comp := by
   simp [urlEncode]
 
+/-- the RFC 4648 text without its `=` signs (§3.2: padding omitted) -/
+def unp (d : List UInt8) : List UInt8 := (rfcWith chr d).filter (· != eqSign)
+
+theorem chr_ne (k : Nat) (hk : k < 64) : (chr k != eqSign) = true := by
+  have := (chr_props k hk).2.2.2
+  simpa using this
+
+theorem unp_cons3 (a b c : UInt8) (t : List UInt8) : unp (a :: b :: c :: t) =
+    [chr (a.toNat / 4), chr (a.toNat % 4 * 16 + b.toNat / 16), chr (b.toNat % 16 * 4 + c.toNat / 64), chr (c.toNat % 64)] ++ unp t := by
+  have ha := a.toNat_lt; have hb := b.toNat_lt; have hc := c.toNat_lt
+  simp only [unp, rfcWith, List.cons_append, List.nil_append, List.filter_cons,
+    chr_ne _ (show a.toNat / 4 < 64 by omega), chr_ne _ (show a.toNat % 4 * 16 + b.toNat / 16 < 64 by omega),
+    chr_ne _ (show b.toNat % 16 * 4 + c.toNat / 64 < 64 by omega), chr_ne _ (show c.toNat % 64 < 64 by omega), if_true]
+
+theorem unp_2 (a b : UInt8) : unp [a, b] = [chr (a.toNat / 4), chr (a.toNat % 4 * 16 + b.toNat / 16), chr (b.toNat % 16 * 4)] := by
+  have ha := a.toNat_lt; have hb := b.toNat_lt
+  have he : (eqSign != eqSign) = false := by decide
+  simp only [unp, rfcWith, List.filter_cons, List.filter_nil, he,
+    chr_ne _ (show a.toNat / 4 < 64 by omega), chr_ne _ (show a.toNat % 4 * 16 + b.toNat / 16 < 64 by omega),
+    chr_ne _ (show b.toNat % 16 * 4 < 64 by omega), if_true]
+  simp
+
+theorem unp_1 (a : UInt8) : unp [a] = [chr (a.toNat / 4), chr (a.toNat % 4 * 16)] := by
+  have ha := a.toNat_lt
+  have he : (eqSign != eqSign) = false := by decide
+  simp only [unp, rfcWith, List.filter_cons, List.filter_nil, he,
+    chr_ne _ (show a.toNat / 4 < 64 by omega), chr_ne _ (show a.toNat % 4 * 16 < 64 by omega), if_true]
+  simp
+
+theorem unp_nil : unp [] = [] := rfl
+
+/-- all characters of the unpadded text are alphabet symbols -/
+theorem unp_sym : ∀ (d : List UInt8), ∀ x ∈ unp d, isSym x = true
+  | a :: b :: c :: t => by
+    have ha := a.toNat_lt; have hb := b.toNat_lt; have hc := c.toNat_lt
+    intro x hx
+    rw [unp_cons3] at hx
+    simp only [List.cons_append, List.nil_append, List.mem_cons] at hx
+    rcases hx with rfl | rfl | rfl | rfl | hx
+    · exact (chr_props _ (by omega)).1
+    · exact (chr_props _ (by omega)).1
+    · exact (chr_props _ (by omega)).1
+    · exact (chr_props _ (by omega)).1
+    · exact unp_sym t x hx
+  | [a, b] => by
+    have ha := a.toNat_lt; have hb := b.toNat_lt
+    intro x hx
+    rw [unp_2] at hx
+    simp only [List.mem_cons, List.not_mem_nil, or_false] at hx
+    rcases hx with rfl | rfl | rfl
+    · exact (chr_props _ (by omega)).1
+    · exact (chr_props _ (by omega)).1
+    · exact (chr_props _ (by omega)).1
+  | [a] => by
+    have ha := a.toNat_lt
+    intro x hx
+    rw [unp_1] at hx
+    simp only [List.mem_cons, List.not_mem_nil, or_false] at hx
+    rcases hx with rfl | rfl
+    · exact (chr_props _ (by omega)).1
+    · exact (chr_props _ (by omega)).1
+  | [] => by intro x hx; simp [unp_nil] at hx
+
+theorem unp_dec : ∀ (d : List UInt8), decGroups ((unp d).map inv) = d.take (d.length / 3 * 3)
+  | a :: b :: c :: t => by
+    have ha := a.toNat_lt; have hb := b.toNat_lt; have hc := c.toNat_lt
+    rw [unp_cons3]
+    simp only [List.map_cons, List.cons_append, List.nil_append, decGroups]
+    rw [inv_chr _ (by omega), inv_chr _ (by omega), inv_chr _ (by omega), inv_chr _ (by omega), triple_full, unp_dec t]
+    have : (a :: b :: c :: t).length / 3 * 3 = t.length / 3 * 3 + 3 := by simp only [List.length_cons]; omega
+    rw [this]; rfl
+  | [a, b] => by rw [unp_2]; simp [decGroups]
+  | [a] => by rw [unp_1]; simp [decGroups]
+  | [] => by simp [unp_nil, decGroups]
+
+theorem unp_short : ∀ (d : List UInt8), (unp d).length < 4 → d.length / 3 * 3 = 0
+  | a :: b :: c :: t => by rw [unp_cons3]; simp; omega
+  | [a, b] => by simp
+  | [a] => by simp
+  | [] => by simp
+
+theorem sym_props : ∀ n, n < 256 → isSym (UInt8.ofNat n) = true → isSpace (UInt8.ofNat n) = false ∧ UInt8.ofNat n ≠ 0 := by
+  decide +kernel
+
+theorem sym_props' (c : UInt8) (h : isSym c = true) : isSpace c = false ∧ c ≠ 0 := by
+  have := sym_props c.toNat c.toNat_lt
+  simp only [UInt8.ofNat_toNat] at this
+  exact this h
+
+theorem padCount_all_sym (w : List UInt8) (h : ∀ x ∈ w, isSym x = true) : padCount w = 0 := by
+  unfold padCount
+  have : (w.drop 1).reverse.takeWhile (fun c => !isSym c) = [] := by
+    cases hr : (w.drop 1).reverse with
+    | nil => rfl
+    | cons x r =>
+      have hx : x ∈ w := by
+        have : x ∈ (w.drop 1).reverse := by rw [hr]; exact List.mem_cons_self
+        exact List.mem_of_mem_drop (List.mem_reverse.mp this)
+      simp [List.takeWhile, h x hx]
+  rw [this]; rfl
+
+/-- `decodeBase64` of the unpadded text: the bytes of the complete 3-byte groups; the 1 or 2 tail bytes are lost -/
+theorem decode_unp (d : List UInt8) : decodeBase64 (unp d) = d.take (d.length / 3 * 3) := by
+  unfold decodeBase64
+  by_cases hl : (unp d).length < 4
+  · simp [hl, unp_short d hl]
+  · simp only [hl, if_false]
+    have hs := unp_sym d
+    have h1 : (unp d).takeWhile (· != 0) = unp d := by
+      apply takeWhile_all; intro x hx; simpa using (sym_props' x (hs x hx)).2
+    have h2 : (unp d).filter (fun c => !isSpace c) = unp d := by
+      apply List.filter_eq_self.mpr; intro x hx; simp [(sym_props' x (hs x hx)).1]
+    rw [padCount_all_sym _ hs]
+    unfold decWritten
+    rw [h1, h2, unp_dec, Nat.sub_zero, List.length_take, List.take_take]
+    congr 1; omega
+
 end AslProofs.CodecExt
